@@ -107,7 +107,7 @@ int main(int argc, char** argv)
       int id = entry_from_key(a[0]); const char* fl = g_sigs[id].flags; if (!strcmp(fl, "RT")) { ++notce; return; }
       const auto& sig = entry_args()[id]; if (genname != "c07") for (size_t i = 0; i < sig.size(); ++i) if (!c08_arg_ok(id, i, sig[i], a[1 + i])) return;
       bool sq = !strcmp(fl, "CESQ"); bool have = false, bad = false; int64_t ref = 0;
-      for (const Cut& c : ctx.cuts) { CallResult r = cut_call(c, id, a[1], a[2], a[3]); if (r.trap) { ++trapped; bad = true; break; } if (sq && !c.abacus) continue; if (!have) { have = true; ref = r.v; } else if (r.v != ref) { ++disagree; bad = true; break; } }
+      for (const Cut& c : ctx.cuts) { CallResult r = cut_call(c, id, a[1], a[2], a[3]); if (r.trap) { ++trapped; bad = true; break; } if (sq && !c.abacus) continue; if (!have) { have = true; ref = r.v; } else if (r.v != ref) { if (disagree < 12) fprintf(stderr, "emit: builds disagree on %s(%" PRId64 ",%" PRId64 ",%" PRId64 "): %" PRId64 " vs %" PRId64 " (%s)\n", g_sigs[id].name, a[1], a[2], a[3], ref, r.v, c.name.c_str()); ++disagree; bad = true; break; } }
       if (bad || !have) return;
       // Language rule, not a library matter: a floating-point operation whose result is not finite
       // (x/0.0, overflow to inf, inf-inf) is never a constant expression, and NaN payloads are not
